@@ -15,6 +15,7 @@ type heapVisitor struct {
 	onPtr    func(p *value, pointee types.Type)
 	onSlice  func(cell *value, s []value, elem types.Type) // cell holding the slice (may be nil)
 	onMap    func(m *omap)
+	onMapT   func(m *omap, t types.Type)
 	maxDepth int
 }
 
@@ -77,6 +78,9 @@ func (h *heapVisitor) walk(v value, t types.Type, holder *value, depth int) {
 		}
 		if h.onMap != nil {
 			h.onMap(m)
+		}
+		if h.onMapT != nil {
+			h.onMapT(m, t)
 		}
 		for _, e := range m.ents {
 			if !e.dead {
@@ -187,6 +191,21 @@ func init() {
 		it := args[0].(iface)
 		h.walk(it.v, it.t, nil, 0)
 		return out
+	}
+	// CountMaps(root any, typeName string) int: the non-nil maps of the named map type
+	// ("pkg/path.Name") reachable from root.
+	externals[rt+"CountMaps"] = func(fr *frame, args []value) value {
+		name := goString(args[1])
+		n := 0
+		h := &heapVisitor{in: fr.i, seen: map[*value]bool{}, exempt: map[string]bool{}}
+		h.onMapT = func(m *omap, t types.Type) {
+			if namedKey(t) == name {
+				n++
+			}
+		}
+		it := args[0].(iface)
+		h.walk(it.v, it.t, nil, 0)
+		return n
 	}
 	externals[rt+"IsPointer"] = func(fr *frame, args []value) value {
 		it, ok := args[0].(iface)
